@@ -1,6 +1,7 @@
 """Per-property checks: scenario sets, bounds, monitors."""
 
 import json
+import os
 import time
 
 from vx import explore as ex
@@ -175,6 +176,10 @@ def run(prop, tier, seed, only=None):
     if prop not in REGISTRY:
         print("unknown property %s" % prop)
         return 2
+    if tier != "quick" and "VERIF_BUDGET_S" not in os.environ:
+        # the thorough tier explores until this wall-clock budget per worker pool is used up; what was cut is
+        # listed in the evidence (scenarios_incomplete / scenarios_cut_by_time_budget). 0 = no budget.
+        os.environ["VERIF_BUDGET_S"] = "1200"
     return REGISTRY[prop](tier, seed, only=only)
 
 
